@@ -68,7 +68,7 @@ def run(module, cfg, *, wd=None, workers=8, dump=None, simulate=None, depth=None
     with open(cfgp, 'w') as f:
         f.write(cfg)
     meta = tempfile.mkdtemp(prefix='meta_', dir=wd)
-    cmd = ['java', '-XX:+UseParallelGC', '-Xmx' + heap]
+    cmd = ['java', '-XX:+UseParallelGC', '-Xmx' + heap, '-Djava.io.tmpdir=' + meta]    # TLC's own scratch goes with the work directory
     if dfs:
         cmd.append('-Dtlc2.tool.queue.IStateQueue=StateDeque')
     cmd += ['-cp', JAR, 'tlc2.TLC', '-workers', str(workers), '-metadir', meta,
